@@ -1,6 +1,7 @@
 package c19
 
 import (
+	"bytes"
 	"fmt"
 	"strings"
 
@@ -23,6 +24,84 @@ type cg struct {
 	noREmpty bool // no empty-but-non-nil reverse start bound (unused since afaf3d1)
 	bdgOnce  bool // badger batches single-use (only on a tree where reuse kills the process)
 	rewrite  bool // written batches may be written again without Reset
+	stepwise bool // step-wise iterators (iopen/istep/iclose) interleaved with reads and with writes OUTSIDE their domains
+	itOpen   map[int][3]string // id -> s, e, rev
+	nextIt   int
+}
+
+// inDomain: the interface's ranges (forward s <= k < e, reverse e < k <= s; nil = unbounded, nil start forward = empty)
+func inDomain(k []byte, s, e string, rev bool) bool {
+	sb, eb := bnd(s), bnd(e)
+	if !rev {
+		return bytes.Compare(k, sb) >= 0 && (eb == nil || bytes.Compare(k, eb) < 0)
+	}
+	return (sb == nil || bytes.Compare(k, sb) <= 0) && (eb == nil || bytes.Compare(k, eb) > 0)
+}
+
+// writable: the contract of types.go - no write within the domain of an existing iterator
+func (c *cg) writable(k string) bool {
+	kb := bnd(k)
+	if kb == nil {
+		kb = []byte{}
+	}
+	for _, d := range c.itOpen {
+		if inDomain(kb, d[0], d[1], d[2] == "1") {
+			return false
+		}
+	}
+	return true
+}
+
+func (c *cg) keyOutside() string {
+	for i := 0; i < 12; i++ {
+		if k := c.key(); c.writable(k) {
+			return k
+		}
+	}
+	return ""
+}
+
+func (c *cg) closeIters() {
+	for id := 0; id < c.nextIt; id++ {
+		if _, ok := c.itOpen[id]; ok {
+			c.emit(fmt.Sprintf("iclose id=%d", id))
+			delete(c.itOpen, id)
+		}
+	}
+}
+
+func (c *cg) step() {
+	g := c.g
+	if c.stepwise {
+		if len(c.itOpen) > 0 && c.rnd(100) < 45 {
+			var ids []int
+			for id := 0; id < c.nextIt; id++ {
+				if _, ok := c.itOpen[id]; ok {
+					ids = append(ids, id)
+				}
+			}
+			id := ids[c.rnd(len(ids))]
+			if c.rnd(100) < 12 {
+				c.emit(fmt.Sprintf("iclose id=%d", id))
+				delete(c.itOpen, id)
+				g.Count("op:iclose")
+			} else {
+				c.emit(fmt.Sprintf("istep id=%d", id))
+				g.Count("op:istep")
+			}
+			return
+		}
+		if len(c.itOpen) < 2 && c.rnd(100) < 8 {
+			id := c.nextIt
+			c.nextIt++
+			s, e, rev := c.bound(), c.bound(), fmt.Sprint(c.rnd(2))
+			c.emit(fmt.Sprintf("iopen id=%d s=%s e=%s rev=%s", id, s, e, rev))
+			c.itOpen[id] = [3]string{s, e, rev}
+			g.Count("op:iopen")
+			return
+		}
+	}
+	c.step0()
 }
 
 func (c *cg) rnd(n int) int { return c.g.Rng.Intn(n) }
@@ -141,18 +220,26 @@ func boundsOf(g *hx.Gen, keys [][]byte) []string {
 
 func (c *cg) emit(op string) { c.ops = append(c.ops, op) }
 
-func (c *cg) step() {
+func (c *cg) step0() {
 	g := c.g
 	r := c.rnd(100)
 	switch {
 	case r < 22:
-		k := c.key()
+		k := c.keyOutside()
+		if k == "" {
+			c.emit(fmt.Sprintf("get k=%s", c.key()))
+			return
+		}
 		op := []string{"set", "set", "setsync", "put"}[c.rnd(4)]
 		c.emit(fmt.Sprintf("%s k=%s v=%s", op, k, c.val()))
 		c.live[strings.Replace(k, "nil", "-", 1)] = true
 		g.Count("op:" + op)
 	case r < 32:
-		k := c.key()
+		k := c.keyOutside()
+		if k == "" {
+			c.emit(fmt.Sprintf("has k=%s", c.key()))
+			return
+		}
 		op := []string{"del", "del", "delsync", "delerr"}[c.rnd(4)]
 		c.emit(fmt.Sprintf("%s k=%s", op, k))
 		kk := strings.Replace(k, "nil", "-", 1)
@@ -196,7 +283,8 @@ func (c *cg) step() {
 	case r < 97:
 		c.batchStep()
 	default:
-		// no batch survives a reopen
+		// no batch and no iterator survives a reopen
+		c.closeIters()
 		c.emit("reopen")
 		c.open, c.pend = map[int]string{}, map[int]int{}
 		c.effect = true
@@ -251,6 +339,9 @@ func (c *cg) batchStep() {
 		c.pend[id]++
 		g.Count("op:bdel")
 	case r < 88:
+		if len(c.itOpen) > 0 {
+			c.closeIters() // a batch may hold keys inside an open iterator's domain: release the iterators first
+		}
 		op := []string{"bwrite", "bwrite", "bwritesync", "bcommit"}[c.rnd(4)]
 		c.emit(fmt.Sprintf("%s id=%d", op, id))
 		g.Count("op:" + op)
@@ -396,6 +487,16 @@ func (P) Generate(g *hx.Gen) {
 			"bnew id=0", "bset id=0 k=01 v=01", "bwrite id=0", "del k=01", "bwrite id=0", "get k=01", "bset id=0 k=02 v=02", "bwrite id=0", "iter s=nil e=nil"}, false)
 	}
 
+	g.Case("corpus prefix batch: every Set keeps its own key (prefix slice with spare capacity)", []string{"case backends=mem,ldb,bolt,bdg prefix=70",
+		"bnew id=0", "bnew id=1", "bset id=0 k=01 v=01", "bset id=1 k=0a v=0a", "bset id=0 k=02 v=02", "bdel id=1 k=01", "bset id=0 k=03 v=03", "bset id=1 k=0b v=0b",
+		"iter s=nil e=nil", "bwrite id=0", "iter s=nil e=nil", "uiter s=nil e=nil", "bwrite id=1", "iter s=nil e=nil", "breset id=0", "bset id=0 k=04 v=04", "bset id=0 k=05 v=05", "bcommit id=0", "iter s=nil e=nil"}, true)
+	g.Case("corpus step-wise iterators under the contract (writes outside the domain only)", []string{"case backends=mem,ldb,bolt,bdg prefix=none",
+		"set k=01 v=01", "set k=03 v=03", "set k=05 v=05", "set k=07 v=07", "iopen id=0 s=02 e=06 rev=0", "iopen id=1 s=06 e=02 rev=1", "istep id=0", "set k=07 v=77", "del k=01", "set k=0600 v=06",
+		"istep id=1", "istep id=0", "get k=03", "istep id=0", "istep id=1", "istep id=1", "iter s=nil e=nil", "istep id=0", "iclose id=0", "iclose id=1", "istep id=0"}, true)
+	g.Case("corpus empty key per engine", []string{"case backends=mem,ldb,bolt,bdg prefix=none tags=emptykey",
+		"set k=01 v=01", "set k=- v=aa", "put k=- v=ab", "setsync k=nil v=ac", "get k=-", "load k=-", "has k=-", "exist k=-", "iter s=nil e=nil", "del k=-", "delerr k=-",
+		"bnew id=0", "bset id=0 k=- v=bb", "bset id=0 k=02 v=02", "bdel id=0 k=-", "bwrite id=0", "iter s=nil e=nil", "riter s=nil e=nil", "get k=nil"}, true)
+
 	// ---- (L) leaf functions
 	nL := g.Pick(12, 60)
 	for k := 0; k < nL; k++ {
@@ -433,7 +534,11 @@ func (P) Generate(g *hx.Gen) {
 	// ---- (A) the store itself, (B) PrefixDB views
 	nAB := g.Pick(450, 1200)
 	for k := 0; k < nAB; k++ {
-		c := &cg{g: g, live: map[string]bool{}, open: map[int]string{}, pend: map[int]int{}, bdgOnce: bdgOnce}
+		c := &cg{g: g, live: map[string]bool{}, open: map[int]string{}, pend: map[int]int{}, bdgOnce: bdgOnce, itOpen: map[int][3]string{}}
+		c.stepwise = g.Rng.Intn(100) < 40
+		if c.stepwise {
+			g.Count("kind:stepwise-iterators")
+		}
 		view := g.Rng.Intn(100) < 45
 		var header string
 		var first string
@@ -485,12 +590,31 @@ func (P) Generate(g *hx.Gen) {
 		for i := 0; i < n; i++ {
 			c.step()
 		}
+		c.closeIters()
 		if view {
 			c.emit("uiter s=nil e=nil") // the view never touched its neighbours
 		}
 		c.emit("iter s=nil e=nil")
 		c.emit("riter s=nil e=nil")
 		g.Case(header, c.ops, c.bigIter && c.effect)
+	}
+
+	// ---- (E) the empty key on the engines that reject it (tag emptykey: per-engine behaviour, tied to the model's
+	// Engine.stores / panicsOnRead / panicsOnDelete / putErr / delErr; the equivalence monitors are off)
+	nE := g.Pick(25, 80)
+	for k := 0; k < nE; k++ {
+		c := &cg{g: g, live: map[string]bool{}, open: map[int]string{}, pend: map[int]int{}, hasBdg: true, bdgOnce: bdgOnce, emptyOK: true}
+		c.keys = universe(g, true)
+		c.keys = append(c.keys, []byte{}, []byte{}) // the empty key often
+		c.bounds = boundsOf(g, c.keys)
+		c.emit("case backends=mem,ldb,bolt,bdg prefix=none tags=emptykey")
+		n := 25 + g.Rng.Intn(30)
+		for i := 0; i < n; i++ {
+			c.step()
+		}
+		c.emit("iter s=nil e=nil")
+		g.Count("kind:emptykey")
+		g.Case("empty key on all engines", c.ops, true)
 	}
 
 	// ---- (S) sharded stores (counts=4): lookups exact, iteration as a sorted multiset
